@@ -497,3 +497,41 @@ Example C04_documented_example :
   ConcreteExample.region (comps dpa) dw <> ConcreteExample.region (comps dpa) dw0.
 Proof. exact c01_documented_by_computation. Qed.
 Print Assumptions C04_documented_example.
+
+(* ------------------------------------------------------------------ *)
+(** ** the layering of the constructors New / NewWithFS
+    [ncfg q = mkConfig None [q] q]: HiddenFS directly over the OS filesystem
+    (no PrefixFS), the backup location [q] - an absolute cleaned path other
+    than "/" - hidden from the base and the root of the backup filesystem.
+    The base view [V0H q] (Spec/ViewRoot.v) is the WHOLE filesystem except the
+    location and what lies below it; it shows link targets as stored ([tn_0],
+    the identity: without PrefixFS nothing cleans them).  The root "/" is a
+    proper ancestor of the location ([anc_h q]): it cannot be removed (EBUSY)
+    or renamed.  Proofs/LawsNew.v. *)
+From BFS Require Import Spec.ViewHidden Spec.ViewRoot Proofs.LawsNew Proofs.NewExample.
+
+Theorem C04_rollback_new_partial :
+  forall q, hidden_ok q ->
+  forall B0, all_small B0 ->
+  forall w0 ops w,
+    initial (V0H q) (Vp q) tn_0 clean (acc_0 q) (acc_p q) B0 w0 ->
+    good_run (cfg_base (ncfg q)) (cfg_backup (ncfg q)) (V0H q) w0 ops w ->
+    exists w', b_rollback (cfg_base (ncfg q)) (cfg_backup (ncfg q)) w = (MOk tt, w') /\
+               store_eqv (V0H q w') B0 /\ (forall p, p <> s_root -> Vp q w' !! p = None) /\
+               w_infos w' = ∅.
+Proof. exact c01_new. Qed.
+Print Assumptions C04_rollback_new_partial.
+
+(** non-vacuity: location /var/bk; Chmod("/etc/f"), RemoveAll("/var") (fails at
+    the end: the location is inside), Rename("/var","/w") (refused),
+    Create("/var/new"), Mkdir("/var/bk/zz") (refused: hidden), Remove("/l"),
+    Chmod("/var"); then Rollback: the whole OS filesystem is as before *)
+Example C04_new_example :
+  let '(r, w') := b_rollback (cfg_base (ncfg nq)) (cfg_backup (ncfg nq)) nw in
+  r = MOk tt /\ w_infos w' = ∅ /\
+  ConcreteExample.region [] w' = ConcreteExample.region [] nw0 /\
+  ConcreteExample.view_erased (V0H nq w') = ConcreteExample.view_erased nB0 /\
+  map fst (map_to_list (Vp nq w')) = [s_root] /\
+  ConcreteExample.region [] nw <> ConcreteExample.region [] nw0.
+Proof. exact c01_new_by_computation. Qed.
+Print Assumptions C04_new_example.
